@@ -726,7 +726,12 @@ def run(ctx):
                 "every step re-evaluated on fresh copies.  non-trivial = sequence of length >= 2")
     info, verdict = analysis_verdicts(ctx)
     diagnose(ctx, info, verdict)
-    coq_crosscheck(ctx, info)
+    try:
+        coq_crosscheck(ctx, info)
+    except RuntimeError as e:
+        # the in-Coq re-evaluation disagrees with the driver (or coqc failed): a broken obligation, reported as such; the
+        # dynamic runs below still decide the property on the implementation
+        ctx.k_mismatch("extraction cross-check failed: " + str(e)[:600], {"kind": "xcheck"})
     n = 600 if ctx.tier == "quick" else 5000
     calls, raised, alias, lens, mutated = sweep(ctx, n, ctx.seed)
     report(ctx, calls, raised, alias, lens, mutated, info, verdict, "run")
